@@ -152,3 +152,98 @@ Fixpoint mech_replay (pop : nat) (s : qs) (tr : list oobs) : bool :=
       zlist_eqb (res (getj s1 j)) r && enabled pop s1 (Run j) && mech_replay pop (qstep pop s1 (Run j)) t
   | ObsEnd j :: t => enabled pop s (Finish j) && mech_replay pop (qstep pop s (Finish j)) t
   end.
+
+(* ---------------- what the mechanism model shows to an observer ----------------
+   Only events that are enabled happen.  [Take] is invisible (the run-function has not been called yet), [Run j] is the
+   moment the run-function is called with the resources bound to job j, [Finish j] the moment it returns. *)
+Fixpoint obs_trace (pop : nat) (s : qs) (sched : list qev) : list oobs :=
+  match sched with
+  | [] => []
+  | e :: t =>
+      (if enabled pop s e
+       then match e with Take _ => [] | Run j => [ObsStart j (res (getj s j))] | Finish j => [ObsEnd j] end
+       else []) ++ obs_trace pop (qstep pop s e) t
+  end.
+
+(* the 'dequed' metadata the model reports for each job: what the job is bound to *)
+Definition model_meta (s : qs) : list (nat * list Z) := map (fun j => (j, res (getj s j))) (seq 0 (length (jobs s))).
+
+(* schedules in which the resources are taken in the order of the job ids (the queue semaphore wakes its waiters in
+   FIFO order, and jobs reach it in the order of their submission): an enabled [Take j] happens only when no job with a
+   smaller id is still waiting *)
+Definition not_waiting (s : qs) (k : nat) : bool := match ph (getj s k) with Waiting => false | _ => true end.
+Fixpoint fifo_sched (pop : nat) (s : qs) (sched : list qev) : bool :=
+  match sched with
+  | [] => true
+  | e :: t =>
+      (if enabled pop s e then match e with Take j => forallb (not_waiting s) (seq 0 j) | _ => true end else true)
+      && fifo_sched pop (qstep pop s e) t
+  end.
+
+(* the state the exact FIFO prediction ends in (None: the trace is not the predicted one); its deque is compared with
+   the implementation's deque at the end of a run (order included) *)
+Fixpoint mech_state (pop : nat) (s : qs) (tr : list oobs) : option qs :=
+  match tr with
+  | [] => Some s
+  | ObsStart j r :: t =>
+      let s1 := take_upto pop s j in
+      if zlist_eqb (res (getj s1 j)) r && enabled pop s1 (Run j) then mech_state pop (qstep pop s1 (Run j)) t else None
+  | ObsEnd j :: t => if enabled pop s (Finish j) then mech_state pop (qstep pop s (Finish j)) t else None
+  end.
+
+Lemma mech_replay_state pop : forall tr s,
+  mech_replay pop s tr = match mech_state pop s tr with Some s' => all_finished s' | None => false end.
+Proof.
+  induction tr as [|[j r|j] t IH]; intros s; cbn [mech_replay mech_state]; [reflexivity| |].
+  - destruct (zlist_eqb _ r && enabled pop (take_upto pop s j) (Run j)); cbn [andb]; [apply IH| reflexivity].
+  - destruct (enabled pop s (Finish j)); cbn [andb]; [apply IH| reflexivity].
+Qed.
+
+(* is the implementation's deque, at the end, the initial collection of resources? *)
+Definition queue_back (q0 fq : list Z) : bool := match take_all q0 fq with Some [] => true | _ => false end.
+
+Lemma queue_back_sound q0 fq : queue_back q0 fq = true -> Permutation fq q0.
+Proof.
+  unfold queue_back. destruct (take_all q0 fq) as [[|x l]|] eqn:E; try discriminate. intros _.
+  rewrite (take_all_perm _ _ _ E), app_nil_r. reflexivity.
+Qed.
+
+(* final check for runs in which some jobs report no metadata ([nometa]: the run-function raised, or the job was
+   cancelled by close()): nothing is active, every other job ended, the metadata of a job names what it received, every
+   job is either reported once or in [nometa], every resource is back - in the oracle's books and in the real deque *)
+Definition final_okx (q0 : list Z) (njobs : nat) (nometa : list nat) (meta : list (nat * list Z)) (fq : list Z) (s : ast) : nat :=
+  if negb (Nat.eqb (length (active s)) 0) then 5
+  else if negb (forallb (fun j => existsb (Nat.eqb j) nometa || match lookupn j (ended s) with Some _ => true | None => false end) (seq 0 njobs)) then 5
+  else if negb (forallb (fun m => match lookupn (fst m) (ended s) with Some r => zlist_eqb r (snd m) | None => false end) meta) then 4
+  else if negb (forallb (fun j => Nat.eqb (count_occ Nat.eq_dec (map fst meta ++ nometa) j) 1) (seq 0 njobs)) then 4
+  else if queue_back q0 (free s) && queue_back q0 fq then 0 else 6.
+
+Lemma final_okx_sound q0 njobs nometa meta fq s : final_okx q0 njobs nometa meta fq s = 0 ->
+  active s = [] /\ Permutation fq q0 /\ Permutation (free s) q0.
+Proof.
+  unfold final_okx. destruct (Nat.eqb (length (active s)) 0) eqn:E1; cbn [negb]; [|discriminate].
+  destruct (forallb _ (seq 0 njobs)); cbn [negb]; [|discriminate]. destruct (forallb _ meta); cbn [negb]; [|discriminate].
+  destruct (forallb _ (seq 0 njobs)); cbn [negb]; [|discriminate].
+  destruct (queue_back q0 (free s)) eqn:E2; destruct (queue_back q0 fq) eqn:E3; cbn [andb]; try discriminate. intros _.
+  split; [|split; apply queue_back_sound; assumption]. apply Nat.eqb_eq in E1. destruct (active s); [reflexivity| discriminate].
+Qed.
+
+(* ---------------- what the extended mechanism shows to an observer ----------------
+   The run-function of job j is called when the job is admitted (serial backend) or picked up by a pool thread (thread
+   backend); it ends when it returns, raises, is cancelled by close() (serial backend: the coroutine is cancelled) or, for
+   a zombie of the thread backend, when the thread returns. *)
+Definition xobs1 (W : nat) (thr : bool) (s : xs) (e : xev) : list oobs :=
+  if xerr s then [] else if negb (xenabled s e) then [] else
+  match e with
+  | XRun j => if thr then [] else [ObsStart j (xres (xget s j))]
+  | XStart j => if Nat.ltb (xbusy s) W then [ObsStart j (xres (xget s j))] else []
+  | XFinish j | XFail j | XZombieEnd j => [ObsEnd j]
+  | XClose => if thr then []
+              else flat_map (fun j => match xph (xget s j) with XRunning => [ObsEnd j] | _ => [] end) (seq 0 (length (xjobs s)))
+  | _ => []
+  end.
+Fixpoint xobs_trace (pop W : nat) (thr : bool) (s : xs) (sched : list xev) : list oobs :=
+  match sched with
+  | [] => []
+  | e :: t => xobs1 W thr s e ++ xobs_trace pop W thr (xstep pop W thr s e) t
+  end.
